@@ -786,12 +786,16 @@ func typed(run *hx.Run, rng *hx.Rng) {
 			}
 		}
 		r := rng.Fork(uint64(len(t.name))*131 + uint64(t.name[0]))
-		for i := 0; i < nVals; i++ {
+		limit := nVals
+		for i := 0; i < limit; i++ {
 			v := t.gen(r)
 			enc, err := rlp.EncodeToBytes(v)
 			if err != nil {
 				run.Violate("encode-error", t.name, t.name, err.Error())
 				continue
+			}
+			if i == 0 && run.Thorough() && len(enc) > 300 {
+				limit = nVals / 4 // large consensus values (header, block, receipt): keep the case file within bounds
 			}
 			// tie the typed encoder to the spec encoder: the model re-encodes the independently derived item
 			if it, ok := safeSpecItem(v); ok {
@@ -880,5 +884,19 @@ func typed(run *hx.Run, rng *hx.Rng) {
 			}
 		}
 		rec(nil)
+		// every single byte, and short integers/strings/lists around the value boundaries the alphabet does not
+		// contain (2 for bool, leading zeros behind 0x82/0x83, 9-byte integers)
+		for b := 0; b < 256; b++ {
+			checkCanon([]byte{byte(b)}, "single-byte")
+		}
+		vals := []byte{0x00, 0x01, 0x02, 0x7f, 0x80, 0xff}
+		for _, h := range []byte{0x81, 0x82, 0x83, 0x88, 0x89, 0xc1, 0xc2, 0xc3} {
+			for _, a := range vals {
+				checkCanon([]byte{h, a}, "short")
+				for _, b := range vals {
+					checkCanon([]byte{h, a, b}, "short")
+				}
+			}
+		}
 	}
 }
